@@ -103,3 +103,7 @@ Proof.
   repeat split; try reflexivity; exact Perm.
 Qed.
 End V1.
+
+Lemma get_compiled : forall recs k,
+  get (store_v1 recs) k = map row_of (filter (fun r => bytes_eqb (key_v1 r) k) recs).
+Proof. intros. unfold store_v1. rewrite get_store_of. exact (rows_for_v1 recs k). Qed.
